@@ -1032,7 +1032,7 @@ SHALLOW = {
     # shallow seam (datagram_received + Session + addon + attempt_resends task): (drop style, depth, deviation bound).
     # drop style: the addon calls circuit.drop_message itself / it take()s the message, discards the copy, returns True
     "quick": [("drop", 3, 3), ("take", 3, 1)],
-    "thorough": [("drop", 3, 3), ("take", 3, 3), ("drop", 4, 3), ("take", 4, 3)],
+    "thorough": [("drop", 3, 3), ("take", 3, 3), ("drop", 4, 3), ("take", 4, 1)],
 }
 
 
